@@ -16,7 +16,7 @@ RULE = ("exhaustive enumeration of finite tables: every keyword x 4 letter cases
         "strings (lower and upper case); #rrggbb/#rrggbbaa on a 17-step lattice per channel plus full 0..255 sweeps "
         "of each channel; rgb()/rgba()/hsl()/hsla() argument products incl. out-of-range, negative, fractional; "
         "every 8-bit value written through every component setter into 27 base colours; packings on a 17^4 "
-        "lattice; hue/saturation/lightness get->set on a 9^3x2 lattice.  A case is non-trivial when it denotes a "
+        "lattice; hue/saturation/lightness get->set on a 9^3x2 lattice; all ordered pairs of 24 supported / near-miss spellings.  A case is non-trivial when it denotes a "
         "distinct (spelling class, expected RGBA) pair; distinct = distinct expected value per sub-check.")
 MANIFEST = dict(
     technique="bounded-exhaustive enumeration of finite input tables against a reference model",
